@@ -59,6 +59,7 @@ func genRigCase(r *rng.R) rigIn {
 		{Kind: "struct", Name: "Failure", Pkg: "ctl", File: "types.go", Fields: []pField{{Name: "Err", Type: "error", Tag: `json:"-"`}, {Name: "Code", Type: "int", Tag: `json:"code"`}}},
 	}
 	p.Config.Globs = []string{"./ctl/*.go"}
+	p.Config.EnumValidator, p.Config.TopLevelEnum, p.Config.ValidateResp = r.Chance(1, 3), r.Chance(1, 3), r.Chance(1, 3)
 	expectRefused := r.Chance(1, 14)
 	reqs := []rigReq{}
 	rid := 0
@@ -275,6 +276,9 @@ func genRigCase(r *rng.R) rigIn {
 					all = append(all, alt[0].Name)
 				}
 				add(build("deny-all", nil, "", all))
+				dn := build("deny-all-nil-context", nil, "", all)
+				dn.NilCtx = true
+				add(dn)
 				if len(routeSec) > 1 {
 					add(build("deny-first", nil, "", []string{routeSec[0][0].Name}))
 				}
